@@ -65,6 +65,18 @@ func child(c *vf.Ctx) {
 			}
 		}
 		c.Emit("resume", hi)
+	case "single": // one scripted scenario in its own process: fam api(inst|pkg) logger(0|1) holdMs seed
+		fam, pkg, logger := c.ChildArgs[0], c.ChildArgs[1] == "pkg", c.ChildArgs[2] == "1"
+		holdMs, _ := strconv.Atoi(c.ChildArgs[3])
+		seed, _ := strconv.ParseInt(c.ChildArgs[4], 10, 64)
+		c.Mark(strings.Join(c.ChildArgs, " "))
+		if fam == "det" {
+			daemon.VerifYield = gateHook
+			runScenarioOn(c, seed, -1, pkg, logger)
+		} else {
+			runLifeOn(c, seed, -1, pkg, logger, holdMs)
+		}
+		c.Emit("done", 1)
 	case "lifeone":
 		seed, _ := strconv.ParseInt(c.ChildArgs[0], 10, 64)
 		runLife(c, seed, -1)
@@ -113,6 +125,34 @@ func famRange(c *vf.Ctx, fam string, lo, hi int) {
 			c.Violation("fatal:"+fatalClass(res.Fatal), fmt.Sprintf("%s child died in configuration %d: %s", fam, at, res.Fatal), replayRec{Mode: fam, CfgSeed: seed, Index: at, Dump: trunc(res.Stderr, 6000)})
 		}
 		lo = at + 1
+	}
+}
+
+// single runs one scripted scenario of family fam in its own child process (needed for the
+// process-global default daemon, which cannot be restarted, and for the patience runs, which
+// spend wall time and therefore run next to everything else).
+func single(c *vf.Ctx, fam string, pkg, logger bool, holdMs int, seed int64) {
+	api, lg := "inst", "0"
+	if pkg {
+		api = "pkg"
+	}
+	if logger {
+		lg = "1"
+	}
+	res := c.RunChild(vf.ChildOpts{Name: "single", Args: []string{fam, api, lg, strconv.Itoa(holdMs), strconv.FormatInt(seed, 10)}, Timeout: 2*time.Minute + 4*time.Duration(holdMs)*time.Millisecond, Env: []string{"GOMAXPROCS=4"}})
+	for _, r := range res.Records {
+		if r.Kind == "done" {
+			return
+		}
+	}
+	rep := replayRec{Mode: fam, CfgSeed: seed, Pkg: pkg, Logger: logger, HoldMs: holdMs, Dump: trunc(res.Stderr, 6000)}
+	switch {
+	case res.TimedOut:
+		c.Inconclusive(fmt.Sprintf("single %s child (api=%s logger=%s hold=%dms seed %d) timed out, dump in %s", fam, api, lg, holdMs, seed, res.StderrPath))
+	case res.Deadlock:
+		c.Violation("hang:runtime-deadlock", fmt.Sprintf("Go runtime reported a global dead-lock in a scripted scenario (%s, api=%s, debug logger=%v)", fam, api, logger), rep)
+	default:
+		c.Violation("fatal:"+fatalClass(res.Fatal), fmt.Sprintf("single %s child (api=%s, debug logger=%v) died: %s", fam, api, logger, res.Fatal), rep)
 	}
 }
 
@@ -271,6 +311,10 @@ func run(c *vf.Ctx) {
 			fmt.Fprintln(os.Stderr, err)
 			os.Exit(3)
 		}
+		if r.Pkg || r.HoldMs > 0 {
+			single(c, r.Mode, r.Pkg, r.Logger, r.HoldMs, r.CfgSeed)
+			return
+		}
 		switch r.Mode {
 		case "det":
 			res := c.RunChild(vf.ChildOpts{Name: "one", Args: []string{strconv.FormatInt(r.CfgSeed, 10)}, Timeout: 2 * time.Minute, Env: []string{"GOMAXPROCS=4"}})
@@ -291,7 +335,7 @@ func run(c *vf.Ctx) {
 		}
 		return
 	}
-	c.SetRule("one evaluation = one oracle decision on the real daemon: (a) at every quiescent point of a scripted scenario (all goroutines parked, shutdown goroutine in WaitGroup.Wait or gone) each live worker's ctx.Err() is compared with 'every worker of strictly higher order has returned' (both directions), ShutdownAndWait/Run callers that returned are checked against unreturned workers, registrations of running names / after shutdown must be refused, a BackgroundWorker call gated at daemon.bgworker.afterStoppedCheck while shutdown runs must be refused or its worker cancelled and waited for; (b) per BackgroundWorker call of the free-running stress (plain and -race; every sixth iteration is the 'shutdown requested by the k-th started worker while Start launches 3/50/2000 workers' workload, every third iteration is the 'worker exit vs re-registration' workload: callers spin on BackgroundWorker(sameName) while the old handler returns, 2-5 names, up to 3 generations, optional Run, shutdown after or during): accepted workers returned before ShutdownAndWait did (logical clock), cancelled workers see no cancelled unreturned lower-order worker. Bursts of the read-only / no-op-looking API (GetRunningBackgroundWorkers, IsRunning, IsStopped, ContextStopped, DebugLogger(nil), a second Start, the default-daemon getters; 0-3 calls each) are interleaved before Start, while running, right before and during shutdown and afterwards, and their results are compared with the model at quiescent points. Configurations come from a per-index seed (orders from a pool with ties, negatives, gaps, int32 and platform-int boundary values, a third of the pools with a pair more than math.MaxInt apart; early finishers; re-registration; 1-4 shutdown callers; Run). (c) life-cycle entry-point combinations (lifecycle.go, scripted, one gate at a time): the daemon is started with Start() or Run(), the shutdown is requested by Shutdown() or ShutdownAndWait() from another goroutine, and further Run/ShutdownAndWait/Shutdown/Start calls arrive from fresh goroutines while running, in the same step as the shutdown request, at seeded steps of the winding down (at least one per configuration; parked before, or overlapping, the next worker's return), after the stop, and on a daemon stopped before it was started; every Run/ShutdownAndWait call found returned at a quiescent point while a worker that was inside its handler at the previous quiescent point is still inside it is a violation, as is a call blocked for ever once nothing runs, a worker started or a registration accepted on a stopped daemon; the ordering invariant of (a) runs at every one of these points. distinct_nontrivial counts distinct (order multiset at shutdown, gate-release order, variant set) triples of started daemons with >= 2 distinct orders and >= 1 gate release")
+	c.SetRule("one evaluation = one oracle decision on the real daemon: (a) at every quiescent point of a scripted scenario (all goroutines parked, shutdown goroutine in WaitGroup.Wait or gone) each live worker's ctx.Err() is compared with 'every worker of strictly higher order has returned' (both directions), ShutdownAndWait/Run callers that returned are checked against unreturned workers, registrations of running names / after shutdown must be refused, a BackgroundWorker call gated at daemon.bgworker.afterStoppedCheck while shutdown runs must be refused or its worker cancelled and waited for; (b) per BackgroundWorker call of the free-running stress (plain and -race; every sixth iteration is the 'shutdown requested by the k-th started worker while Start launches 3/50/2000 workers' workload, every third iteration is the 'worker exit vs re-registration' workload: callers spin on BackgroundWorker(sameName) while the old handler returns, 2-5 names, up to 3 generations, optional Run, shutdown after or during): accepted workers returned before ShutdownAndWait did (logical clock), cancelled workers see no cancelled unreturned lower-order worker. Bursts of the read-only / no-op-looking API (GetRunningBackgroundWorkers, IsRunning, IsStopped, ContextStopped, DebugLogger(nil), a second Start, the default-daemon getters; 0-3 calls each) are interleaved before Start, while running, right before and during shutdown and afterwards, and their results are compared with the model at quiescent points. Configurations come from a per-index seed (orders from a pool with ties, negatives, gaps, int32 and platform-int boundary values, a third of the pools with a pair more than math.MaxInt apart; early finishers; re-registration; 1-4 shutdown callers; Run). (c) life-cycle entry-point combinations (lifecycle.go, scripted, one gate at a time): the daemon is started with Start() or Run(), the shutdown is requested by Shutdown() or ShutdownAndWait() from another goroutine, and further Run/ShutdownAndWait/Shutdown/Start calls arrive from fresh goroutines while running, in the same step as the shutdown request, at seeded steps of the winding down (at least one per configuration; parked before, or overlapping, the next worker's return), after the stop, and on a daemon stopped before it was started; every Run/ShutdownAndWait call found returned at a quiescent point while a worker that was inside its handler at the previous quiescent point is still inside it is a violation, as is a call blocked for ever once nothing runs, a worker started or a registration accepted on a stopped daemon; the ordering invariant of (a) runs at every one of these points. (d) configuration space: a fixed number of (a) and (c) scenarios run on the package-level default daemon API (daemon.BackgroundWorker/Start/Run/Shutdown/ShutdownAndWait/IsRunning/...; one scenario per process because the default daemon cannot be restarted), every second one with a debug logger installed through daemon.DebugLogger (output discarded); a few (c) scenarios are 'patience' runs (instance, default daemon, default daemon with logger): with a Run and a second ShutdownAndWait parked, all gates stay shut for patience_hold_ms of wall time while the highest order is gated and again when only the last order is left, and the same structural oracles are evaluated at the end of the hold (the duration itself decides nothing). distinct_nontrivial counts distinct (order multiset at shutdown, gate-release order, variant set) triples of started daemons with >= 2 distinct orders and >= 1 gate release")
 	nCfg := c.Pick(1200, 20000)
 	procs := runtime.NumCPU() / 2
 	if procs < 2 {
@@ -322,6 +366,32 @@ func run(c *vf.Ctx) {
 		}
 		wg.Add(1)
 		go func() { defer wg.Done(); famRange(c, "life", lo, hi) }()
+	}
+	// configuration space: both scripted families on the package-level default daemon (one scenario per
+	// process), every second one with a debug logger installed
+	nPkg := c.Pick(24, 300) // per family
+	pkgSem := make(chan struct{}, 3)
+	for _, fam := range []string{"det", "life"} {
+		r := c.Rand("pkgcfg-" + fam)
+		for i := 0; i < nPkg; i++ {
+			seed, logger := r.Int63(), i%2 == 1
+			wg.Add(1)
+			go func() {
+				defer wg.Done()
+				pkgSem <- struct{}{}
+				single(c, fam, true, logger, 0, seed)
+				<-pkgSem
+			}()
+		}
+	}
+	// patience: a few life-cycle scenarios keep all gates shut for holdMs of wall time, twice (highest order
+	// gated; only the last order left). They sleep next to the other work; the duration is no verdict.
+	nPatience, holdMs := c.Pick(4, 12), c.Pick(3500, 11000)
+	pr := c.Rand("patience")
+	for i := 0; i < nPatience; i++ {
+		seed, pkg, logger := pr.Int63(), i%4 != 0, i%4 >= 2 // instance | default daemon | default daemon + logger (x2)
+		wg.Add(1)
+		go func() { defer wg.Done(); single(c, "life", pkg, logger, holdMs, seed) }()
 	}
 	wg.Wait()
 	// free-running stress, plain and -race
@@ -391,6 +461,14 @@ func run(c *vf.Ctx) {
 	c.Require("life_calls_after-stop_run", nLife/2)
 	c.Require("life_calls_stopped-unstarted_run", nLife/20)
 	c.Require("life_shapes", nLife/4)
+	c.Require("det_on_default_daemon", nPkg/2)
+	c.Require("det_on_default_daemon_with_debug_logger", nPkg/2)
+	c.Require("life_on_default_daemon", nPkg/2)
+	c.Require("life_on_default_daemon_with_debug_logger", nPkg/2)
+	c.Require("patience_holds", nPatience+nPatience/2) // two holds per patience run unless it has a single order left after the first
+	c.Require("patience_holds_with_debug_logger", nPatience/2)
+	c.Require("patience_calls_blocked_after_hold", nPatience*2) // Run/ShutdownAndWait callers still parked at the end of a hold
+	c.Extra("patience_hold_ms", holdMs)
 	c.Assume("runtime.Stack(all) snapshots are consistent (stop-the-world); a process in which every goroutine is parked on a channel/sync primitive and no timer exists cannot make progress by itself (the daemon uses no timers and no logger unless DebugLogger is called)")
 	c.Assume("sync/atomic operations are sequentially consistent (logical clock, returned flags)")
 }
